@@ -96,3 +96,14 @@ Fixpoint count_calls (dim : nat) (chains : list (list Z)) (calls : list (nat * n
       let r := runner_impl count_step (fun s => s) (repeat 0%Z dim) chains n d in
       concat (concat (snd r)) ++ count_calls dim (fst r) rest
   end.
+
+(* ---- index form used for the real samplers: with the transition-counting chain S on nat,
+   the model's rows are the numbers of transitions performed; the driver maps them to the
+   trajectory obtained by stepping a clone of the sampler manually ---- *)
+Definition real_idx (kind : nat) (n d : nat) : list Z :=
+  match kind with
+  | 0 => let r := run_chain_impl S (fun s => s) 0 0 n d in map Z.of_nat (snd r ++ [fst r])          (* MH / Gibbs / any MarkovChain *)
+  | 1 => let r := hmc_run_impl S (fun s => [s]) 0 1 0 n d in
+         map Z.of_nat (nth 0 (snd r) [] ++ [fst r])                                               (* HMC *)
+  | _ => let r := nuts_run_impl S (fun s => s) 0 0 n d in map Z.of_nat (snd r ++ [fst r])         (* NUTS *)
+  end.
